@@ -28,8 +28,9 @@ type C04Case struct {
 	Sign      string        `json:"sign,omitempty"` // debsign | dpkg-sig | rpm | apk2048 | apk4096
 	DescLen   int           `json:"desc_len,omitempty"`
 	ScriptLen int           `json:"script_len,omitempty"`
-	// Changelog: a changelog is configured
-	Changelog bool `json:"changelog,omitempty"`
+	// Changelog: a changelog is configured; ChangelogFile names it ("" = the standard one)
+	Changelog     bool   `json:"changelog,omitempty"`
+	ChangelogFile string `json:"changelog_file,omitempty"`
 	// ScriptMask: with Scripts, the subset of the format's script slots that is configured (0 = all)
 	ScriptMask uint `json:"script_mask,omitempty"`
 }
@@ -198,11 +199,27 @@ func init() {
 			}
 			// signed variants
 			payloads := [][]model.Entry{nil, {ts[0]}, {ts[0], ts[6]}}
+			// zstd streams with payloads larger than one block / larger than the window defaults
+			for _, l := range [][]model.Entry{{{Src: "share/big.bin", Dst: "/opt/big.bin"}}, {{Src: "sizes", Dst: "/opt/sizes", Type: "tree"}}, {{Src: "sizes/s1048577.bin", Dst: "/opt/a"}, {Src: "sizes/s1048576.bin", Dst: "/opt/b"}, {Src: "share/big.bin", Dst: "/opt/c"}}} {
+				for _, cs := range []struct {
+					f string
+					s Setting
+				}{{"deb", Setting{Name: "deb.compression=zstd", DebCompress: "zstd", Only: "deb"}}, {"rpm", Setting{Name: "rpm.compression=zstd", RPMCompress: "zstd", Only: "rpm"}}, {"rpm", Setting{Name: "rpm.compression=zstd:fastest", RPMCompress: "zstd:fastest", Only: "rpm"}}, {"archlinux", Setting{Name: "default"}}} {
+					if !yield(C04Case{Class: "zstd-large", Format: cs.f, Setting: cs.s, List: l}) {
+						return
+					}
+				}
+			}
 			// a changelog (deb ships it as a generated payload member below /usr/share/doc/<name>/, rpm in header tags)
 			for _, f := range []string{"deb", "rpm"} {
 				for _, l := range [][]model.Entry{nil, {ts[0]}, {{Src: "doc/README", Dst: "/usr/share/doc/pkg/README"}}, {{Dst: "/usr/share/doc", Type: "dir"}}, {{Src: "tree", Dst: "/usr/share/doc/pkg/examples", Type: "tree"}}} {
 					for _, s := range c04Settings(f) {
 						if !yield(C04Case{Class: "changelog", Format: f, Setting: s, List: l, Changelog: true}) {
+							return
+						}
+					}
+					for _, cf := range []string{"changelog-empty.yaml", "changelog-undated.yaml", "changelog-big.yaml"} {
+						if !yield(C04Case{Class: "changelog", Format: f, Setting: Setting{Name: "default"}, List: l, Changelog: true, ChangelogFile: cf}) {
 							return
 						}
 					}
@@ -294,6 +311,9 @@ func c04Doc(env *engine.Env, c C04Case) (fixture.Doc, error) {
 	}
 	if c.Changelog {
 		d["changelog"] = t.P("changelog.yaml")
+		if c.ChangelogFile != "" {
+			d["changelog"] = t.P(c.ChangelogFile)
+		}
 	}
 	return d, nil
 }
